@@ -370,6 +370,14 @@ def _hist_oracle(a, ires):
         k = o[0]
         good = _in_range(S)
         body = tc_octets(S) if good else None
+        if k in pc.SERIALISERS and not pc.hdr_range_ok(S):
+            # APID / sequence count / data length were pushed out of range (the setters do not validate): every one of these
+            # routes packs the primary header first and must refuse with ValueError; nothing is encoded and nothing -
+            # not even the cached CRC - changes
+            r = pc.out_of_range_verdict("PusTc", k, where, S, st)
+            if r is not None:
+                return r
+            continue
         if k in (0, 1, 7):
             out = None
             if ok:
@@ -666,7 +674,8 @@ def _rand_ops(rng, n0, maxops=10, wild_p=0.0):
         else:
             o = _rand_setter(rng, cur, wild=rng.random() < wild_p)
             ops.append(o)
-            if o[0] == 23: pass
+            if o[0] == 30 and o[1] in pc.HDR_LIMIT and not 0 <= o[2] < pc.HDR_LIMIT[o[1]] and rng.random() < 0.6:
+                ops.append(rng.choice([[0], [1], [2], [7], [7], [26, 0], [27, 1]]))     # ... pushed out of range: a serialiser follows
             if rng.random() < 0.15:
                 ops.append(list(o))
     return ops
@@ -803,6 +812,16 @@ def hardening_streams(tier, rng):
                           [(p_, k_, n_) for p_ in (0, 1, 2, 3) for k_ in (0, 1) for n_ in (65528, 65529)]):
         cases.append((520, _hist_params(rng, path=path, kind=kind, n=n)))
     yield "alternate_construction_paths", "exact", cases
+    # E2. a primary-header field pushed out of range through every public route (tc.apid, sp_header.apid, packet_id.apid,
+    #     ... data_len), then every serialisation route (must refuse with ValueError, nothing encoded), healed, serialised again
+    cases = []
+    for path in (0, 1, 2, 3):
+        base = _hist_params(rng, path=path, n=rng.randrange(0, 9))
+        heal = lambda f, base=base: len(base[1]) + 6 if f == 6 else rng.randrange(pc.HDR_LIMIT[f])
+        hs = pc.out_of_range_histories(rng, HDR_ROUTES, heal)
+        for ops in (hs if big or path == 0 else rng.sample(hs, len(hs) // 4)):
+            cases.append((520, base + ops))
+    yield "header_out_of_range_then_serialise", "exact", cases
     # F. size sweep of the setters on a live object (bytes, bytearray, in-place growth), views in between
     cases = []
     sizes = sorted(set(NEAR_256) | {0, 1, 2, 63, 64, 65, 127, 128, 129, 255, 1100} | ({2048, 4095, 4096, 4097} if big else set()))
